@@ -218,6 +218,14 @@ DiffSupport ==
                           /\ XorBlk(ao(j), bo(j)) = dl
                           /\ (j + 1 <= L => ao(j + 1) # bo(j + 1))
                           /\ \A i \in (j + 2)..L : ao(i) = bo(i)
+                     [] fam = "cfb" /\ u = 1 ->          \* buffered CFB, one byte altered: the same thing at byte grain
+                          LET bsz    == a.bs
+                              blkEnd == ((j - 1) \div bsz + 1) * bsz       \* last byte of the altered block
+                          IN  /\ XorBlk(ao(j), bo(j)) = dl
+                              /\ \A i \in (j + 1)..Min(blkEnd, L) : ao(i) = bo(i)
+                              /\ (blkEnd + bsz <= L =>
+                                    SubSeq(a.out, blkEnd + 1, blkEnd + bsz) # SubSeq(b.out, blkEnd + 1, blkEnd + bsz))
+                              /\ \A i \in (blkEnd + bsz + 1)..L : ao(i) = bo(i)
                      [] fam = "cfb8" ->
                           /\ XorBlk(ao(j), bo(j)) = dl
                           /\ \A i \in (j + a.bs + 1)..L : ao(i) = bo(i)
